@@ -201,8 +201,51 @@ def eval_case(case):
     raise ValueError("unknown case " + fn)
 
 
+def lifecycle_case(case):
+    """fit -> transform -> the caller edits the arrays it passed -> transform -> re-fit the same object -> transform;
+    returns [(what, signature, implementation, expected)] for every step that does not decode like a freshly fitted grid"""
+    kind, b1, b2, boxes = case["kind"], case["bits1"], case["bits2"], (case["box1"], case["box2"])
+    nv = len(b1)
+    out = []
+    SGc, GCc = impl()
+    g = (GCc if kind == "gray" else SGc)()
+    try:
+        lo, hi, bt = np.array(boxes[0][0], dtype=np.float64), np.array(boxes[0][1], dtype=np.float64), np.array(b1, dtype=np.int64)
+        g.fit(left_border=lo, right_border=hi, num_variables=nv, bits_per_variable=bt)
+        rows1 = all_rows(sum(b1), np.int8)
+        want1 = make_grid(kind, boxes[0][0], boxes[0][1], bits=b1).transform(rows1)
+        t1 = g.transform(rows1)
+        if not np.array_equal(t1, want1):
+            out.append(("a grid fitted from caller-owned arrays decodes differently from one fitted from the same values",
+                        "lifecycle:fit", t1.tolist()[:8], want1.tolist()[:8]))
+        lo += 1.21
+        hi -= 0.37
+        bt[...] = bt[::-1] + 1                      # the caller recycles its buffers for something else
+        t1b = g.transform(rows1)
+        inv = g.inverse_transform(want1)
+        if not np.array_equal(t1b, want1) or not np.array_equal(np.asarray(inv, dtype=np.int64), rows1.astype(np.int64)):
+            out.append(("after fit(), editing the arrays the caller had passed to fit() changed transform / inverse_transform of the fitted grid",
+                        "lifecycle:caller-array-edited", t1b.tolist()[:8], want1.tolist()[:8]))
+        # re-fit the SAME object with another bits vector / box
+        g.fit(left_border=np.array(boxes[1][0]), right_border=np.array(boxes[1][1]), num_variables=nv, bits_per_variable=np.array(b2, dtype=np.int64))
+        rows2 = all_rows(sum(b2), np.int8)
+        want2 = make_grid(kind, boxes[1][0], boxes[1][1], bits=b2).transform(rows2)
+        t2 = g.transform(rows2)
+        inv2 = g.inverse_transform(want2)
+        if not np.array_equal(t2, want2) or not np.array_equal(np.asarray(inv2, dtype=np.int64), rows2.astype(np.int64)):
+            out.append(("a re-fitted grid does not decode like a freshly fitted one (state of the earlier fit leaks)",
+                        "lifecycle:refit", np.asarray(t2).tolist()[:8], want2.tolist()[:8]))
+    except Exception as e:  # noqa: BLE001
+        out.append((f"fit / transform / re-fit sequence raised {type(e).__name__}: {e}", "lifecycle:raised", None, repr(e)))
+    return out
+
+
 def replay(ctx, rp) -> bool:
     case = rp["first"]["case"] if "first" in rp else rp["case"]
+    if case.get("fn") == "lifecycle":
+        bad = lifecycle_case(case)
+        C.log("replay:", "holds" if not bad else f"FAILS {bad[0][0]}")
+        return not bad
     ok, clause, detail, sig = eval_case(case)
     C.log("replay:", "holds" if ok else f"FAILS clause={clause} detail={detail}")
     return ok
@@ -655,6 +698,26 @@ def run(ctx, rep):
     rep.sample(dict(family="inverse", kind="gray", left=[0.0, 0.0], right=[15.0, 15.0], bits=[4, 4], pop=[[0, 0], [1, 3]], impl=o))
 
     C.log(f"[C10] sampled/fit done {tm.s()}s")
+    # ---------------------------------------------------------------- lifecycle of ONE fitted object
+    # "for a fitted grid": the decoding depends on the last fit() only - not on an earlier fit of the same object, and not on
+    # what the caller does afterwards with the arrays it passed to fit()
+    for _ in range(ctx.pick(30, 200)):
+        kind = rng.choice(["binary", "gray"])
+        nv = rng.randint(1, 3)
+        b1 = [rng.randint(1, 4) for _ in range(nv)]
+        b2 = list(b1)
+        rng.shuffle(b2)
+        if b2 == b1 or rng.random() < 0.3:
+            b2 = [rng.randint(1, 4) for _ in range(nv)]
+        boxes = []
+        for _k in range(2):
+            left = [rng.choice(L_CHOICES) for _ in range(nv)]
+            boxes.append((left, [l + rng.choice([1.0, 2.5, 10.0, 0.375]) for l in left]))
+        case = dict(fn="lifecycle", kind=kind, bits1=b1, bits2=b2, box1=boxes[0], box2=boxes[1])
+        rep.count("lifecycle", (kind, tuple(b1), tuple(b2), tuple(boxes[0][0]), tuple(boxes[1][0])))
+        for what, sig, got, want in lifecycle_case(case):
+            rep.problem("lifecycle", what, case, sig, True, got, want, "C10_transform_grid")
+    C.log(f"[C10] lifecycle done {tm.s()}s")
     # ---------------------------------------------------------------- evaluate the model on every case
     for name, fc in fam.f.items():
         bad, errors = fc.run()
